@@ -2,6 +2,7 @@ import PrysmVerif.Generated.C09
 import PrysmVerif.Lemmas.C09Der
 import PrysmVerif.Lemmas.C09Fam
 import PrysmVerif.Lemmas.C09Asm
+import PrysmVerif.Lemmas.C09Tail
 /-!
 # C09 — derivative routines return the derivatives of the routines they name
 
@@ -37,19 +38,23 @@ theorem gen_jder_seed (jj J a p1 : K) : jderSeed jj J a p1 = jj * a * p1 := rfl
 theorem gen_jder_indices (M jj j n : Int) :
     jderSeedPos M jj j = (jj, M - jj) ∧ jderSeedReads M jj j = [(jj - 1, M - jj + 1)] ∧
     jderWritePos M jj j n = (jj, n) ∧ jderStepReads M jj j n = [(jj - 1, n + 1), (jj, n + 1), (jj, n + 2)] ∧
-    jderLoop M jj j = (M - jj - 1, -1, -1) ∧ jderSeedABCIdx M jj j = M - jj ∧ jderABCIdx M jj j n = (n, n, n + 1) ∧
+    (jderLoop M jj j).2 = (-1, -1) ∧
+    (1 ≤ jj → M - jj - 1 ≤ (jderLoop M jj j).1 ∧ (jderLoop M jj j).1 ≤ M - 2) ∧ jderSeedABCIdx M jj j = M - jj ∧ jderABCIdx M jj j n = (n, n, n + 1) ∧
     jderABCPositions = (0, 1, 2) ∧ jderRowsAboveDegreeStayZero = true ∧ jderRowZeroIsTheValueSweep = true := by
   simp only [jderSeedPos, jderSeedReads, jderWritePos, jderStepReads, jderLoop, jderSeedABCIdx, jderABCIdx, jderABCPositions]
-  refine ⟨?_, ?_, ?_, ?_, ?_, ?_, ?_, ?_, by decide, by decide⟩ <;> first | rfl | omega | simp
+  refine ⟨?_, ?_, ?_, ?_, ?_, ?_, ?_, ?_, ?_, by decide, by decide⟩ <;> first | rfl | omega | simp | (intro h; constructor <;> omega)
 
-/-- `clenshaw_qbfs_der`: seed position/index, reads, loop start `M - jj - 1`, order guard -/
+/-- `clenshaw_qbfs_der`: seed position/index, reads, order guard; the sweep of row `jj` starts between `M - jj - 1`
+(where it must) and `M - 2` (above that it would read beyond the table) — see `seed_is_recurrence` for why every start in
+that window yields the same row -/
 theorem gen_qbfsder_indices (M jj j n : Int) :
     qbfsderSeedPos M jj j = (jj, M - jj) ∧ qbfsderSeedReads M jj j = [(jj - 1, M - jj + 1)] ∧
     qbfsderWritePos M jj j n = (jj, n) ∧ qbfsderStepReads M jj j n = [(jj - 1, n + 1), (jj, n + 1), (jj, n + 2)] ∧
-    qbfsderLoop M jj j = (M - jj - 1, -1, -1) ∧
+    (qbfsderLoop M jj j).2 = (-1, -1) ∧
+    (1 ≤ jj → M - jj - 1 ≤ (qbfsderLoop M jj j).1 ∧ (qbfsderLoop M jj j).1 ≤ M - 2) ∧
     qbfsderRowsAboveDegreeStayZero = true ∧ qbfsderRowZeroIsTheValueSweep = true := by
   simp only [qbfsderSeedPos, qbfsderSeedReads, qbfsderWritePos, qbfsderStepReads, qbfsderLoop]
-  refine ⟨?_, ?_, ?_, ?_, ?_, by decide, by decide⟩ <;> first | rfl | omega | simp
+  refine ⟨?_, ?_, ?_, ?_, ?_, ?_, by decide, by decide⟩ <;> first | rfl | omega | simp | (intro h; constructor <;> omega)
 
 theorem gen_q2dder_seed (jj J b p1 : K) : q2dderSeed jj J b p1 = jj * b * p1 := rfl
 
@@ -57,12 +62,13 @@ theorem gen_q2dder_seed (jj J b p1 : K) : q2dderSeed jj J b p1 = jj * b * p1 := 
 theorem gen_q2dder_indices (N jj j n : Int) :
     q2dderSeedPos N jj j = (jj, N - jj) ∧ q2dderSeedReads N jj j = [(jj - 1, N - jj + 1)] ∧
     q2dderWritePos N jj j n = (jj, n) ∧ q2dderStepReads N jj j n = [(jj - 1, n + 1), (jj, n + 1), (jj, n + 2)] ∧
-    q2dderLoop N jj j = (N - jj - 1, -1, -1) ∧ q2dderSeedABCIdx N jj j = N - jj ∧ q2dderSeedCoefPosition = 1 ∧
+    (q2dderLoop N jj j).2 = (-1, -1) ∧
+    (1 ≤ jj → N - jj - 1 ≤ (q2dderLoop N jj j).1 ∧ (q2dderLoop N jj j).1 ≤ N - 2) ∧ q2dderSeedABCIdx N jj j = N - jj ∧ q2dderSeedCoefPosition = 1 ∧
     q2dderABCIdx N jj j n = (n, n, n + 1) ∧ q2dderABCPositions = (0, 1, 2) ∧
     q2dderRowsAboveDegreeStayZero = true ∧ q2dderRowZeroIsTheValueSweep = true := by
   simp only [q2dderSeedPos, q2dderSeedReads, q2dderWritePos, q2dderStepReads, q2dderLoop, q2dderSeedABCIdx,
     q2dderSeedCoefPosition, q2dderABCIdx, q2dderABCPositions]
-  refine ⟨?_, ?_, ?_, ?_, ?_, ?_, ?_, ?_, ?_, by decide, by decide⟩ <;> first | rfl | omega | simp
+  refine ⟨?_, ?_, ?_, ?_, ?_, ?_, ?_, ?_, ?_, ?_, by decide, by decide⟩ <;> first | rfl | omega | simp | (intro h; constructor <;> omega)
 
 /-- closed forms: `hermite_He_der = n·He_{n-1}`, `laguerre_der = -L_{n-1}^{(α+1)}`,
 `jacobi_der = ½(n+α+β+1)·P_{n-1}^{(α+1,β+1)}`, each `0` at order 0 and evaluated at the same point -/
@@ -208,6 +214,16 @@ theorem clenshaw_der_entries (G : Fam F) (s : List F) (x₀ : F) (j : ℕ) :
 /-- the polynomial the theorems differentiate evaluates to the explicit sum `Σ s_n p_n(x₀)` -/
 theorem sumPoly_eval (G : Fam F) (s : List F) (x₀ : F) : eval x₀ (sumPoly G s) = wsum (G.p x₀) 0 s :=
   eval_sumPoly G s x₀
+
+/-- in the full table, row `j` vanishes above index `M - j` (`M + 1` coefficients): derivatives of order above the degree
+are zero and the routines may leave those entries untouched -/
+theorem table_zero_above_degree (G : Fam F) (x : F) (s : List F) (j i : ℕ) (h : s.length ≤ i + j) :
+    nth (derTable G x s j) i = 0 := derTable_zero_tail G x s j i h
+
+/-- **the seed is the recurrence**: at index `M - (j+1)` of row `j+1` the recurrence collapses to
+`(j+1) · a · α^{(j)}_{M-j}`, the value all three routines write before their inner loop -/
+theorem seed_is_recurrence (G : Fam F) (x : F) (s : List F) (j i : ℕ) (h : s.length = i + j + 2) :
+    nth (derTable G x s (j+1)) i = ((j : F) + 1) * G.a i * nth (derTable G x s j) (i+1) := derTable_seed G x s j i h
 
 /-- **`jacobi_sum_clenshaw_der`**: `alphas[j][0]` is the `j`-th derivative of `Σ s_n P_n^{(α,β)}` at `x₀` -/
 theorem jacobi_sum_clenshaw_der_correct [DecidableEq F] (s : List F) (al be x₀ : F) (j : ℕ) :
